@@ -308,9 +308,9 @@ def c04(res, tier, seed, replay):
         runs.append({"name": f"flat-pq-{s}", "timeout": 900,
                      "args": ["-mode", "cache", "-insert-only", "-config", "flat-pq", "-nids", 3000, "-maxbatch", 300, "-seed", seed * 100 + 80 + s, "-hist", 1,
                               "-batches", 16, "-rank", 3, "-panel-every", 0]})
-        for cache, ctag in CACHES[::2]:
+        for ci, (cache, ctag) in enumerate(CACHES[::2]):
             runs.append({"name": f"flat-binlearn-{ctag}-{s}",
-                         "args": ["-mode", "cache", "-repeat-upd", "-config", "flat-binlearn", "-cache", cache, "-seed", seed * 100 + 90 + s, "-hist", 3,
+                         "args": ["-mode", "cache", "-repeat-upd", "-config", "flat-binlearn", "-cache", cache, "-seed", seed * 100 + 90 + s + 2 * ci + 2, "-hist", 4,
                                   "-batches", 14, "-rank", 3, "-panel-every", 0]})
     results = drive_and_validate(res, runs)
     for r in results[:2]:
